@@ -14,7 +14,8 @@ LEVEL = 'exploration'
 EXHAUSTIVE = {'quick': True, 'thorough': True}
 RULE = ('Hypothesis sentences of the parsers\' language (closed, non-vacuous, no re-binding, one arity per symbol; all operators and '
         'quantifiers, system predicates, indexes 0..max, subscripts 0/1/9/10/12345, arity 1-4, depth <= 6) and arguments of 0-4 such '
-        'premises. Oracle: (a) Parser(polish)(LexWriter(polish, text, ascii)(s)) == s; (b) Argument(arg.argstr()) == arg; (c) an '
+        'premises. Oracle: (a) Parser(polish)(LexWriter(polish, text, ascii)(s)) == s; (b) Argument(arg.argstr()) == arg, also '
+        'right after failed Argument(...) calls that used the same predicate symbols with other arities; (c) an '
         'independent renderer for the documented standard ASCII alphabet (outer parentheses optional, random extra whitespace, '
         'identity prefix or infix) followed by Parser(standard) returns s, also with a fresh auto-declaring parser and with a parser '
         'given the exact predicates; (d) injectivity: per (notation, format, dialect) x standard-writer option set a dictionary '
@@ -145,9 +146,35 @@ def check_roundtrip(s, variants):
     return out
 
 
-def check_argument(prem, con):
+def poison_strings(prem, con):
+    """Canonical-looking strings that must fail to parse and that use the argument's predicate symbols with another
+    arity: a failed Argument(...) call must leave nothing behind."""
+    out = []
+    for p in sorted(set().union(*(A.predicates(x) for x in (*prem, con))), key=str):
+        if isinstance(p, str):
+            continue
+        other = p[2] + 1 if p[2] < 3 else p[2] - 1
+        out.append(A.pol(('P', (p[0], p[1], other), tuple([A.const(0)] * other))) + ':Fx')
+    return out or ['Fmn:Gx']
+
+
+def check_argument(prem, con, poison=False):
     from pytableaux.lang import Argument
     out = []
+    if poison:
+        from pytableaux.errors import ParseError
+        for bad_text in poison_strings(prem, con):
+            try:
+                Argument(bad_text)
+                out.append(('C12|argstr-accepts-ill-formed', f'Argument({bad_text!r}) did not raise'))
+            except ParseError:
+                pass
+            except Exception as e:
+                out.append((f'C12|argstr-raises|{type(e).__name__}', f'Argument({bad_text!r}): {e!r}'))
+        try:
+            Argument(':'.join(A.pol(x) for x in (con, *prem)), title=3)
+        except Exception:
+            pass
     try:
         arg = A.arg_to_lib(prem, con)
         text = arg.argstr()
@@ -241,10 +268,11 @@ def run_random(shard, acc):
                 p = atom_subscripts(data.draw, data.draw(gen.sentence(prof, data.draw(st.integers(0, 3)))))
                 if A.one_arity_per_symbol([s, *prem, p]):
                     prem.append(p)
-            res = check_argument(prem, s)
-            acc.case(('arg', tuple(prem), s), nontrivial=len(prem) > 0, classes=('argument',))
+            poison = data.draw(st.booleans())
+            res = check_argument(prem, s, poison)
+            acc.case(('arg', tuple(prem), s, poison), nontrivial=len(prem) > 0, classes=('argument', 'after-failed-calls' if poison else 'fresh'))
             for fp, d in res:
-                acc.finding(fp, dict(kind='argument', premises=[A.to_json(p) for p in prem], conclusion=A.to_json(s)), d)
+                acc.finding(fp, dict(kind='argument', premises=[A.to_json(p) for p in prem], conclusion=A.to_json(s), poison=poison), d)
     body()
     acc.extra['renderings'] = acc.extra.get('renderings', 0) + sum(len(t) for t in inj.tables.values())
 
@@ -262,7 +290,7 @@ def replay(case):
     if case['kind'] == 'sentence':
         return check_roundtrip(A.from_json(case['sentence']), [tuple(v) for v in case['variants']])
     if case['kind'] == 'argument':
-        return check_argument([A.from_json(p) for p in case['premises']], A.from_json(case['conclusion']))
+        return check_argument([A.from_json(p) for p in case['premises']], A.from_json(case['conclusion']), case.get('poison', False))
     inj = Injectivity()
     out = []
     for key in ('b', 'a'):
